@@ -85,3 +85,21 @@ Theorem C03_refuted_pending_controlled : exists up st fo stW stI,
   (exists k a, In (k, a) (ctld (pkg_csys [] [] exB_ts)) /\ dv st k = None).
 Proof. exact exB_refutes. Qed.
 Print Assumptions C03_refuted_pending_controlled.
+
+(* ... and along a CHAIN of any number of packages, each analysed with the facts its predecessors published (all but the last
+   conflict-free, the side conditions of the one-step theorem at every link): one engine observing the union of all the
+   packages reports a conflict iff the modular run of the LAST package does *)
+From NP Require Import ModularChain.
+Theorem C03_chain_equals_whole : forall exported facts pkgs stI,
+  modular exported facts pkgs stI ->
+  forall stW, pkg_run facts (m_ann pkgs) (m_ts pkgs) stW ->
+  (conflicts stW <> nil <-> conflicts stI <> nil).
+Proof. exact chain_equals_whole. Qed.
+Print Assumptions C03_chain_equals_whole.
+
+(* non-vacuity: three packages, no flow inside any of them, one flow through all three *)
+Example C03_chain_example : exists stI stW,
+  modular exC_exported nil (cons exC_p1 (cons exC_p2 (cons exC_p3 nil))) stI /\
+  pkg_run nil (m_ann (cons exC_p1 (cons exC_p2 (cons exC_p3 nil)))) (m_ts (cons exC_p1 (cons exC_p2 (cons exC_p3 nil)))) stW /\
+  conflicts stI <> nil /\ conflicts stW <> nil.
+Proof. exact exC_chain. Qed.
